@@ -16,7 +16,7 @@
                                     is already a key of the table
    An outcome is ONE value: Nothing, one Invoke (the `go cmd.Fn(client, in)`), or one reply;
    "exactly once" is this, and the Go-side oracle counts the calls it observes. *)
-Require Import Bytes GoLower Ctcp CmdHandler CmdSpec CmdProofs.
+Require Import Bytes GoLower Ctcp WireOut CmdHandler CmdSpec CmdProofs.
 
 (* ---- Execute ---- *)
 
@@ -159,6 +159,15 @@ Theorem C18_reply_to_sender : forall e src,
 Proof. exact reply_route_private. Qed.
 Print Assumptions C18_reply_to_sender.
 
+(* what is written for the usage reply when prefix, sender and target are plain ASCII without
+   CR/LF: one PRIVMSG line, the text behind a colon (wire2 = Event.Bytes on this shape) *)
+Theorem C18_usage_reply_wire : forall prefix n target lead,
+  clean prefix -> clean target -> clean lead -> name_ok n ->
+  wire2 PRIVMSG target (lead ++ usage_text prefix n) =
+  PRIVMSG ++ [32] ++ target ++ [32; 58] ++ lead ++ usage_text prefix n.
+Proof. exact usage_reply_wire. Qed.
+Print Assumptions C18_usage_reply_wire.
+
 (* ---- Add ---- *)
 
 (* registering an invalid or duplicate name/alias is rejected, the table is what it was;
@@ -219,3 +228,9 @@ Theorem C18_lower_valid : forall s l,
   lower_valid s = Some l <-> lower_ascii_img s = Some l /\ name_ok l.
 Proof. exact lower_valid_spec. Qed.
 Print Assumptions C18_lower_valid.
+
+(* on pure ASCII input that is plain ASCII lower-casing *)
+Theorem C18_lower_ascii : forall s,
+  is_ascii s = true -> lower_ascii_img s = Some (to_lower_ascii s).
+Proof. exact lower_ascii_img_ascii. Qed.
+Print Assumptions C18_lower_ascii.
